@@ -182,8 +182,6 @@ def run_scenario(sc):
             wr = [[a, after[a]] for a in range(65536) if after[a] != ref[a]] if after != ref else []
             tp1 = dict(zip(TP_KEYS, (int(tracer.state[i]) for i in range(8))))
             tp1['bidx'] = int(tracer.block_index)
-            if impl == 'c' and cfgname == 'auto':
-                tp1['idx'] += 1
             obs.append({'impl': '%s/%s' % (impl, cfgname), 'r': [int(v) for v in sim.registers][:30], 'tp': tp1, 'wr': wr, 'exc': exc,
                         'hits': sum(int(a.hits) for a in accs) + int(tracer.dec_a_jr_hits) + int(tracer.dec_a_jp_hits)})
     case['obs'] = obs
@@ -322,6 +320,21 @@ def gen_player_scenario(rnd):
             'pause': pause, 'stop': SINK, 'timeout': 10 ** 7, 'fuel': steps + 8, 'configs': configs}
 
 
+def gen_short_pulse_scenario(acc):
+    """Known finding e2e:probe/short-pulse at scenario level: two edges 20 T-states apart, both between two samples."""
+    rnd = random.Random(1)
+    sc = gen_loop_scenario(rnd, acc, 0)
+    idx = sc['tp']['idx']
+    d = 2 * acc['lt'] + 40
+    sc['tape'] = [([1000] + [10] * (idx - 1) + [d + 7, 20, FAR, FAR], [0xA5], (FAR, FAR + 1), 0)]
+    sc['r'][26] = 0
+    sc['r'][acc['counter']] = 100
+    sc['r'][acc['ear']] = acc['earbase'] + ((idx - acc['pol']) % 2) * acc['mask']
+    sc['key'] = 'probe/short-pulse/%s' % acc['name']
+    sc['fuel'] = 170 * 16
+    return sc
+
+
 def scenario_worker(args):
     seed, n_loop_rounds, n_deca, n_player, part, parts = args
     _skool()
@@ -332,6 +345,8 @@ def scenario_worker(args):
         for i, acc in enumerate(accs):
             if (i + rnd_round) % parts == part:
                 out.append(run_scenario(gen_loop_scenario(rnd, acc, i)))
+    if part == 0:
+        out.append(run_scenario(gen_short_pulse_scenario([a for a in accs if a['name'] == 'rom'][0])))
     for _ in range(n_deca):
         out.append(run_scenario(gen_deca_scenario(rnd)))
     for _ in range(n_player):
@@ -615,7 +630,7 @@ def project(s, err, cfg, loads, scratch=()):
     data = []
     for addr, bs in loads:
         data.append([peek(s, addr + i) for i in range(len(bs))])
-    return {'cfg': cfg_name(cfg), 'cls': cfg_class(cfg), 'err': '', 'pc': s['pc'], 'sp': s['sp'], 'r': s['r'] ^ (1 if cfg.get('pause') == 0 else 0),
+    return {'cfg': cfg_name(cfg), 'cls': cfg_class(cfg), 'err': '', 'pc': s['pc'], 'sp': s['sp'], 'r': s['r'],
             't': s['clock'], 'regs': [s[k] for k in REGS8] + [s[k] for k in REGS16],
             'pages': page_sigs(s['banks']), 'data': data, 'o7ffd': s['o7ffd'] & 0x3F}
 
